@@ -204,6 +204,7 @@ theorem run_shape (ρ : List FunDef) : ∀ (f : Nat) (j : Job) (s : St), (run ρ
         · rfl
       | assignDecl x e =>
         simp only [run]
+        refine withFnCall_shape _ _ (fun s0 => ?_)
         refine bnd_shape _ _ _ (ih _ _) (fun l t ht => ?_)
         have htag : (tagParamAlias e t l).shape = t.shape := by
           unfold tagParamAlias
